@@ -155,6 +155,30 @@ def run_batch(programs, tag="b", sanitize=False, keep=False):
             shutil.rmtree(workdir, ignore_errors=True)
 
 
+def compile_batch(programs, tag="cb"):
+    """Type-checks a batch (-fsyntax-only, many headers per translation unit); a failing batch is
+    bisected. -> {pid: error text or None}"""
+    out = {p.pid: None for p in programs}
+    if not programs:
+        return out
+    base = os.environ.get("VERIF_SCRATCH", tempfile.gettempdir())
+    workdir = tempfile.mkdtemp(prefix=f"verif-cxx-{tag}-", dir=base)
+    try:
+        main_cpp = build_tu(programs, workdir)
+        rc, log = compile_tu(workdir, main_cpp, syntax_only=True)
+    finally:
+        shutil.rmtree(workdir, ignore_errors=True)
+    if rc == 0:
+        return out
+    if len(programs) == 1:
+        out[programs[0].pid] = log[-3000:]
+        return out
+    mid = len(programs) // 2
+    out.update(compile_batch(programs[:mid], tag))
+    out.update(compile_batch(programs[mid:], tag))
+    return out
+
+
 def parse_lines(stdout, out):
     for line in stdout.splitlines():
         parts = line.split("|", 2)
